@@ -391,18 +391,24 @@ def run_fuzz(ctx, count, deep, handler):
 # ---------------------------------------------------------------------------
 # The same bytes through InspectWrapper (all inspectors at once)
 # ---------------------------------------------------------------------------
-def wrapper_outcome(data, read_size, allowed=None, sample_each=False):
+def wrapper_outcome(data, read_size, allowed=None, sample_each=False, expected=None):
     """Read data through InspectWrapper with a fixed read size, close, and
     report what it concludes. Returns (outcome tuple, errored names, history)."""
     import io
     from vf import insp
     from oslo_utils.imageutils import format_inspector as fi
     src = io.BytesIO(data)
-    w = fi.InspectWrapper(src, allowed_formats=allowed)
+    w = fi.InspectWrapper(src, allowed_formats=allowed, **({'expected_format': expected} if expected else {}))
     history = []
     k = 0
     while True:
-        chunk = w.read(read_size)
+        try:
+            chunk = w.read(read_size)
+        except Exception as e:
+            if not expected:
+                raise
+            # with an expected format the stream may legitimately be cut off: what is concluded is the exception
+            return ('ABORT:' + type(e).__name__, None), [], history
         k += 1
         if sample_each:
             history.append(insp.safe(lambda: None if w.format is None else str(w.format)))
@@ -415,10 +421,13 @@ def wrapper_outcome(data, read_size, allowed=None, sample_each=False):
         if not chunk:
             break
     w.close()
-    errored = sorted(str(i) for i in w._errored_inspectors)
+    errored = sorted(str(i) for i in getattr(w, '_errored_inspectors', ()))      # diagnostics only
     try:
         fs = w.formats
         names = None if fs is None else sorted(str(f) for f in fs)
+        if expected and fs is not None:
+            # with several formats in play: what each of them reports (a byte-counting format must have counted every byte)
+            names = sorted('%s:%s:%s' % (str(f), insp.safe(lambda f=f: f.virtual_size), insp.safe(lambda f=f: bool(f.complete))) for f in fs)
     except Exception as e:
         names = 'EXC:' + type(e).__name__
     try:
@@ -452,6 +461,17 @@ def check_wrapper(data, rnd):
         if sz in (4096, 65536):
             out2, errored2, _ = wrapper_outcome(data, sz, sample_each=(k % 2 == 0))
             seen.setdefault(out2, -sz)
+    # the same stream with one of the detected formats named as the expected one: still one conclusion per stream
+    base = next(iter(seen))
+    if isinstance(base[0], tuple) and base[0] and base[0] != ('raw',):
+        exp = sorted(base[0])[0].split(':')[0]
+        seen_exp = {}
+        for sz in sizes[:3] + sizes[-1:]:
+            out, _, _ = wrapper_outcome(data, sz, expected=exp)
+            seen_exp.setdefault((out[0], ('expected', exp, out[1])), sz)
+        if len(seen_exp) > 1:
+            for o, sz in seen_exp.items():
+                seen.setdefault(o, sz)
     return seen, sorted(errored_any)
 
 
